@@ -102,7 +102,12 @@ def group_clauses(spec: dict[str, Any], audit: list[tuple[Any, ...]], got: dict[
     viol: list[tuple[str, str]] = []
     running: dict[str, set[str]] = {}
     left_not_started: dict[str, list[str]] = {}
+    wf_final = False
     for _seq, step, writer, kind, ident, old, new in audit:
+        if kind == "workflow" and new in oracles.COMPLETE:
+            # once the workflow is final its claims may legitimately be swept and no task executes any more (a deferred-choice
+            # loser makes the workflow CANCELED while other branches are still in flight); mutual exclusion is judged up to here
+            wf_final = True
         if kind != "stage" or ident not in id2ref:
             continue
         ref = id2ref[ident]
@@ -111,7 +116,7 @@ def group_clauses(spec: dict[str, Any], audit: list[tuple[Any, ...]], got: dict[
             cur = running.setdefault(key, set())
             if new == "RUNNING":
                 cur.add(ref)
-                if len(cur) > 1:
+                if len(cur) > 1 and not wf_final:
                     viol.append(("mutex-two-running", f"mutex '{key}': {sorted(cur)} RUNNING together (step {step}, while handling {writer})"))
             elif ref in cur:
                 cur.discard(ref)
@@ -343,6 +348,7 @@ def run(c: Campaign, jobs: int) -> None:
     c.assumptions += [
         "same scheduler assumptions as C04; the mutex waiter's delayed retries are fast-forwarded (bounded liveness)",
         "deferred-choice members are sibling alternatives with identical requisites",
+        "mutual exclusion is judged until the workflow reaches a final status (a deferred-choice loser makes the workflow CANCELED early; claims of a final execution may be swept)",
     ]
     for cls in [f"scenario:{n_}" for n_ in names] + ["engine-D", "with-sweep", "feat:mutex", "feat:choice", "gate-in-critical-section"]:
         if c.classes.get(cls, 0) == 0:
